@@ -92,3 +92,22 @@ PROPS["C02"] = dict(
                "validity by construction. Does not demand that admissible rows succeed (that is C05/C09).",
     design_ref="DESIGN.md section 7, C02",
 )
+
+
+PROPS["C03"] = dict(
+    level="model_checking", exhaustive=True,
+    stages=lambda tier, seed: [mc("matrix", "MC_C03", "MC_C03_%s.cfg" % tier)],
+    rule="finite matrix from MC_C03: checker set-ups (key loaded but not set / set with or without explicit alg; key "
+         "with and without alg attribute) x callback {none, empty, sets key, sets alg, sets both, key + alg none} x "
+         "header alg {none, None, NONE, the matching algorithm, missing} x signature {empty, valid, garbage} x shape "
+         "{3 segments, 2 segments, 4 segments, 4 with empty last}; the key-less checker against every token class; "
+         "builder set-ups x the same callbacks -> generate. oct and RSA keys in quick, all key types in thorough. "
+         "distinct = distinct cells.",
+    assumptions=ASSUME_COMMON,
+    level_text="Complete enumeration of the configuration x token-shape matrix on the specification (reference outcome "
+               "satisfies C03 on every cell) and replay of every cell into libjwt; an accepted token must be signed "
+               "iff a key is in force, a produced token unsigned iff no key is in force.",
+    level_note="'Key in force' is the configuration after the callback (a callback that clears the key is not enumerated: "
+               "the property does not state it).",
+    design_ref="DESIGN.md section 7, C03",
+)
